@@ -1,5 +1,6 @@
 import Adb.Model.Engine
 import Adb.Spec.Verdict
+import Adb.Model.Parse
 /- Parsing of the line protocol's rule / request / store dumps. -/
 open Adb Adb.Net
 
@@ -80,6 +81,23 @@ def parseStore (s : String) : Option Store :=
       let perm ← perm.toNat?
       pure { name, aliases, kind := String.ofList kind, mime, content, permission := perm, deps }
     | _ => none
+
+def showOptHashes : Option (List Hash) → String
+  | none => "-"
+  | some l => "+" ++ ",".intercalate (l.map toString)
+
+def showOptHash : Option Hash → String
+  | none => "-"
+  | some h => "+" ++ toString h
+
+/-- the same text the harness's `dump_rule` produces -/
+def showRule (r : Rule) : String :=
+  let fp := match r.filter with
+    | .empty => "E"
+    | .simple s => "S" ++ hex s
+    | .anyOf ss => "A" ++ ",".intercalate (ss.map hex)
+  ";".intercalate [toString r.mask, fp, optHex r.hostname, showOptHashes r.domains, showOptHashes r.notDomains,
+    showOptHash r.domainsUnion, showOptHash r.notDomainsUnion, optHex r.modifier, optHex r.tag, toString r.id, "0"]
 
 def showBool (b : Bool) : String := if b then "1" else "0"
 
